@@ -106,6 +106,37 @@ M = [
  ("C20", "xfab/checks.py", "        if value is not True and value is not False:\n            raise ValueError(\"Please supply a boolean True or False\")\n        else:\n            self._run_checks = value", "        self._run_checks = value\n        if value is not True and value is not False:\n            raise ValueError(\"Please supply a boolean True or False\")", "setter assigns before validating"),
  ("C20", "xfab/checks.py", "    if not (0<=PHI<=np.pi*2):", "    if not (0<=PHI<np.pi*2):", "Euler range: <= -> <"),
  ("C20", "xfab/checks.py", "    if np.dot(ubi[2,:], np.cross(ubi[0,:],ubi[1,:]))<0:", "    if np.dot(ubi[2,:], np.cross(ubi[0,:],ubi[1,:]))>0:", "_check_ubi_matrix sign"),
+ # ---- second batch: edits in code the repository suite does not reach
+ ("C01", "xfab/laue.py", "    cbetstar = (calp*cgam-cbet)/(salp*sgam)\n    cgamstar = (calp*cbet-cgam)/(salp*sbet)\n\n    alpstar", "    cbetstar = (calp*cgam-cbet)/(salp*sgam)\n    cgamstar = (calp*cbet-cgam)/(sbet*salp*1.0000001)\n\n    alpstar", "laue.cell_invert: gamma* off by 1e-7 relative"),
+ ("C01", "xfab/tools.py", "    A = form_a_mat(unit_cell)\n    Ainv = n.linalg.inv(A)\n    return Ainv", "    A = form_a_mat(unit_cell)\n    Ainv = n.linalg.inv(A.T)\n    return Ainv", "form_a_mat_inv: inverse of the transpose"),
+ ("C02", "xfab/laue.py", "    return u_to_rod(ubi_to_u(ubi_matrix))", "    return -u_to_rod(ubi_to_u(ubi_matrix))", "laue.ubi_to_rod: sign"),
+ ("C02", "xfab/tools.py", "    return ub_to_u_b(n.linalg.inv(ubi)*(2*n.pi))", "    return ub_to_u_b(n.linalg.inv(ubi.T)*(2*n.pi))", "ubi_to_u_b: transposed UBI"),
+ ("C03", "xfab/laue.py", "    qua = np.dot(w_mat_x, np.dot(w_mat_y, np.array([0, 0, np.sin(whalf)]))) ", "    qua = np.dot(w_mat_y, np.dot(w_mat_x, np.array([0, 0, np.sin(whalf)]))) ", "laue.quart_to_omega: Ry.Rx for Rx.Ry"),
+ ("C03", "xfab/tools.py", "    Om = n.dot(phi_x,n.dot(phi_y,Om))\n    return Om", "    Om = n.dot(phi_y,n.dot(phi_x,Om))\n    return Om", "form_omega_mat_general: Ry.Rx.Rz"),
+ ("C05", "xfab/sglib.py", "        self.no = 62\n        self.name = \"Pnma\"\n        self.crystal_system = \"orthorhombic\"\n        self.Laue = \"mmm\"\n        self.nsymop = 8\n        self.nuniq = 8\n        self.cell_choice = \"standard\"\n        self.syscond = [0, 0, 0, 0, 0, 0, 0, 0, 0, 0, 0, 0,\n                        2,", "        self.no = 62\n        self.name = \"Pnma\"\n        self.crystal_system = \"orthorhombic\"\n        self.Laue = \"mmm\"\n        self.nsymop = 8\n        self.nuniq = 8\n        self.cell_choice = \"standard\"\n        self.syscond = [0, 0, 0, 0, 0, 0, 0, 0, 0, 0, 0, 0,\n                        0,", "Pnma: 0KL K+L=2N condition dropped"),
+ ("C05", "xfab/tools.py", "    if Laue_class == 'm-3':\n        segm = n.array([[[ 0, 0,  0], [ 1, 0, 0], [ 1, 1, 0], [ 1, 1,  1]],\n                        [[ 1, 2,  0], [ 0, 1, 0], [ 1, 1, 0], [ 1, 1,  1]]])", "    if Laue_class == 'm-3':\n        segm = n.array([[[ 0, 0,  0], [ 1, 0, 0], [ 1, 1, 0], [ 1, 1,  1]]])", "genhkl_base: second segment of m-3 dropped"),
+ ("C05", "xfab/laue.py", "    if sgname != None:\n        spg = sg.sg(sgname=sgname,cell_choice=cell_choice)\n    elif sgno != None:\n        spg = sg.sg(sgno=sgno,cell_choice=cell_choice)\n    else:\n        raise ValueError('No space group information given')\n    \n    H = genhkl_base(unit_cell, \n                      spg.syscond, \n                      sintlmin, sintlmax, \n                      crystal_system=spg.crystal_system, \n                      Laue_class = spg.Laue,", "    if sgname != None:\n        spg = sg.sg(sgname=sgname)\n    elif sgno != None:\n        spg = sg.sg(sgno=sgno,cell_choice=cell_choice)\n    else:\n        raise ValueError('No space group information given')\n    \n    H = genhkl_base(unit_cell, \n                      spg.syscond, \n                      sintlmin, sintlmax, \n                      crystal_system=spg.crystal_system, \n                      Laue_class = spg.Laue,", "laue.genhkl_all by name ignores cell_choice"),
+ ("C06", "xfab/tools.py", "    if output_stl == False:\n        return H[:,:3]\n    else:\n        return H\n    \n\ndef genhkl_base", "    if output_stl == False:\n        return H[:-1,:3] if len(H) > 40 else H[:,:3]\n    else:\n        return H\n    \n\ndef genhkl_base", "genhkl_unique: output_stl=False drops the last row of long lists"),
+ ("C07", "xfab/structure.py", "            exponent = 2*n.pi*n.dot(hkl, r)", "            exponent = 2*n.pi*n.dot(hkl, n.mod(r, 1.0) if noatoms > 2 else r)", "StructureFactor: positions wrapped (harmless) only for > 2 atoms -- control, must stay silent"),
+ ("C08", "xfab/structure.py", "            betaij[i, j] = 2*n.pi**2*cellstar[i]*cellstar[j]*U[i, j]", "            betaij[i, j] = 2*n.pi**2*cellstar[i]*cellstar[i]*U[i, j]", "Uij2betaij: a*_i a*_i"),
+ ("C08", "xfab/structure.py", "        if disper == None or disper[atoms[i].atomtype] == None :\n            fp = 0.0\n            fpp = 0.0", "        if disper == None or disper[atoms[i].atomtype] == None :\n            fp = 0.0", "StructureFactor: fpp not reset for atoms without dispersion"),
+ ("C09", "xfab/laue.py", "    eta = np.array([np.arccos(coseta), -np.arccos(coseta)])", "    eta = np.array([np.arccos(coseta), 2*np.pi-np.arccos(coseta)])", "laue.find_omega_wedge: second eta in [0,2pi) (equivalent angle) -- control, must stay silent"),
+ ("C09", "xfab/tools.py", "    normal = n.dot(w_mat_x, n.dot(w_mat_y, n.array([0, 0, 1])))\n\n    a = g_w[0]*(1-normal[0]**2)", "    normal = n.dot(w_mat_y, n.dot(w_mat_x, n.array([0, 0, 1])))\n\n    a = g_w[0]*(1-normal[0]**2)", "find_omega_quart: axis from Ry.Rx"),
+ ("C10", "xfab/detector.py", "    lab = n.array([[L], [0], [0]]) + n.dot(R_tilt, n.array([[0],", "    lab = n.array([[L], [0], [0]]) + n.dot(R_tilt.T, n.array([[0],", "detector_to_lab: transposed tilt"),
+ ("C11", "xfab/detector.py", "    radcoor = radpix*n.array([-n.sin(etarad),n.cos(etarad)])", "    radcoor = radpix*n.array([n.sin(etarad),n.cos(etarad)])", "eta_and_radpix_to_detyz: eta sense"),
+ ("C11", "xfab/detector.py", "        if o12 == -1:\n            if flipdir == 'forward':\n                img = n.flipud(img)\n            else:\n                img = n.fliplr(img)", "        if o12 == -1:\n            if flipdir == 'forward':\n                img = n.flipud(img)\n            else:\n                img = n.flipud(img)", "image_flipping: inverse of the o12 branch"),
+ ("C12", "xfab/symmetry.py", "        perm[4]  = [[ 1,  0, 0], [-1, -1, 0], [ 0, 0, -1]]\n        perm[5]  = [[-1, -1, 0], [ 0,  1, 0], [ 0, 0, -1]]\n\n    if crystal_system == 6", "        perm[4]  = [[ 1,  0, 0], [-1, -1, 0], [ 0, 0, -1]]\n        perm[5]  = [[-1, -1, 0], [ 0,  1, 0], [ 0, 0,  1]]\n\n    if crystal_system == 6", "trigonal permutation 5: l sign"),
+ ("C13", "xfab/laue.py", "    A[0, 1] = (2*epsilon[1]-A[0, 0]*A0inv[0, 1])/A0inv[1, 1] ", "    A[0, 1] = (2*epsilon[1]-A[1, 1]*A0inv[0, 1])/A0inv[1, 1] ", "laue.epsilon_to_b_old: wrong diagonal element"),
+ ("C14", "xfab/laue.py", "    if Laue_class == '-31m':\n        logger.debug('Laue class : -31m (hex) %s'%unit_cell)\n        if unit_cell[4]==unit_cell[5]:", "    if Laue_class == '-31m' and sintlmax < 0.5:\n        logger.debug('Laue class : -31m (hex) %s'%unit_cell)\n        if unit_cell[4]==unit_cell[5]:", "laue.genhkl_base only: -31m table missing for large shells"),
+ ("C15", "xfab/structure.py", "    if sgname != None:\n        mysg = sg.sg(sgname=sgname, cell_choice=cell_choice)\n    elif sgno !=None:\n        mysg = sg.sg(sgno=sgno, cell_choice=cell_choice)\n    else:\n        raise ValueError('No space group information provided')\n\n    lp", "    if sgname != None:\n        mysg = sg.sg(sgname=sgname, cell_choice=cell_choice)\n    elif sgno !=None:\n        mysg = sg.sg(sgno=sgno)\n    else:\n        raise ValueError('No space group information provided')\n\n    lp", "multiplicity by number ignores cell_choice"),
+ ("C17", "xfab/structure.py", "                label = sub(\"\\s+\", \"\", text[i][12:16])", "                label = sub(\"\\s+\", \"\", text[i][13:16])", "PDBread: label columns"),
+ ("C17", "xfab/structure.py", "            elif '_atom_site_symetry_multiplicity' in cifblk:\n                multi = self.remove_esd(cifblk['_atom_site_symetry_multiplicity'][i])", "            elif '_atom_site_symetry_multiplicity' in cifblk:\n                multi = self.remove_esd(cifblk['_atom_site_symetry_multiplicity'][0])", "CIFread: old SHELXL multiplicity key read from row 0"),
+ ("C17", "xfab/structure.py", "            value = float(a[:a.find('(')])", "            value = float(a[:a.find('(')-1])", "remove_esd: drops the last digit before the parenthesis"),
+ ("C18", "xfab/tools.py", "    red_a_mat[0] = n.dot(a_mat, res[1, :3])", "    red_a_mat[0] = n.dot(a_mat, res[2, :3])", "reduce_cell: first vector is the third entry of the sorted list"),
+ ("C19", "xfab/parameters.py", "        for name, value in zip(self.varylist,values):\n            self.parameters[name]=value", "        for name, value in zip(sorted(self.varylist),values):\n            self.parameters[name]=value", "set_variable_values: names sorted"),
+ ("C19", "xfab/parameters.py", "        for k,v in list(self.parameters.items()):\n            if hasattr(other,k):\n                var = getattr(other,k)\n                logger.debug(\"setting: pars[%s] from %s to %s\"%(k,v,var))\n                self.parameters[k]=var", "        for k,v in list(self.parameters.items()):\n            if hasattr(other,k) and getattr(other,k):\n                var = getattr(other,k)\n                logger.debug(\"setting: pars[%s] from %s to %s\"%(k,v,var))\n                self.parameters[k]=var", "update_yourself: falsy values (0, 0.0, '') not copied"),
+ ("C20", "xfab/symmetry.py", "        checks._check_rotation_matrix(umat_1)\n        checks._check_rotation_matrix(umat_2)", "        checks._check_rotation_matrix(umat_1)", "Umis: second matrix not checked"),
+ ("C20", "xfab/tools.py", "    if CHECKS.activated: checks._check_euler_angles(phi1, PHI, phi2)", "    if CHECKS.activated and PHI > 0: checks._check_euler_angles(phi1, PHI, phi2)", "euler_to_u: angles unchecked when PHI <= 0"),
 ]
 
 
@@ -114,13 +145,20 @@ def sh(cmd, **kw):
 
 
 def main():
-    want = set(sys.argv[1:])
+    start = 0
+    args = []
+    for a in sys.argv[1:]:
+        if a.endswith("-") and a[:-1].isdigit():
+            start = int(a[:-1])
+        else:
+            args.append(a)
+    want = set(args)
     if not os.path.isdir(WT):
         sh("git -C /repo worktree add -q --detach %s HEAD" % WT)
     sh("git -C %s checkout -q -- . && git -C %s checkout -q --detach main" % (WT, WT))
     results = []
     for i, (prop, path, old, new, what) in enumerate(M):
-        if want and prop not in want:
+        if (want and prop not in want) or i < start:
             continue
         f = os.path.join(WT, path)
         src = open(f).read()
@@ -142,7 +180,10 @@ def main():
             rec["check_exit"] = r.returncode
             rec["violation_lines"] = len(viol)
             rec["monitors"] = sorted(set(l.split("replay=replays/")[1].split("-seed")[0] for l in viol))[:6]
-            if "passed" in suite and "failed" not in suite:
+            if "control" in what:
+                # behaviour-preserving edit: the check must stay silent
+                rec["status"] = "CONTROL silent (as it must be)" if r.returncode == 0 else "CONTROL FIRED (false alarm)"
+            elif "passed" in suite and "failed" not in suite:
                 rec["status"] = "CAUGHT" if (r.returncode == 1 and viol) else "MISSED"
             else:
                 rec["status"] = "killed by the repository suite (not counted); check " + ("also fires" if viol else "silent")
@@ -155,8 +196,9 @@ def main():
     sh("git -C %s checkout -q -- evidence; rm -f %s/replays/*.json" % (VERIF, VERIF))
     out = os.path.join(VERIF, "notes", "own_mutants_result.json")
     prev = []
-    if want and os.path.exists(out):
-        prev = [r for r in json.load(open(out)) if r["property"] not in want]
+    if (want or start) and os.path.exists(out):
+        done = set(r["id"] for r in results)
+        prev = [r for r in json.load(open(out)) if r["id"] not in done]
     json.dump(prev + results, open(out, "w"), indent=1)
     c = sum(1 for r in results if r["status"] == "CAUGHT")
     m = sum(1 for r in results if r["status"] == "MISSED")
